@@ -119,8 +119,6 @@ def _standin(rep, tier, seed, only_search=False):
     shapes = structured_shapes(7 if tier == "quick" else 8)
     names = sorted(shapes)
     spairs = [(a, b) for a in names for b in names]
-    if tier == "quick":
-        spairs = rng.sample(spairs, 260)
     for a, b in spairs:
         true = mgh_bb(shapes[a], shapes[b])
         lb, ub = _gh(shapes[a], shapes[b], None, rng.randint(0, 10 ** 6))
